@@ -14,6 +14,7 @@ import itertools
 from collections import OrderedDict
 
 from .core import AnalysisError
+from .core import model_token
 from .absint import (Interp, Obj, ClassVal, AbsRaise, Unsupported, Native, NativeObj, Closure, Bound,
                      Unknown)
 from . import common
@@ -696,7 +697,7 @@ ALIAS["copy"] = LAWS["explore_copy"][0]
 
 def report(ctx, rule, fn, what, loc, floor):
     """Run an exploration once per model; fail once per distinct description."""
-    key = (id(ctx.model), fn.__name__, ctx.thorough)
+    key = (model_token(ctx.model), fn.__name__, ctx.thorough)
     if key not in _CACHE:
         _CACHE[key] = fn(ctx)
     n, fails = _CACHE[key]
